@@ -92,6 +92,7 @@ OPS1 = {
     "maxall": ("{0}.max()", lambda t: t.max(), lambda a: a.reshape(-1)[np.argmax(a.real)], lambda s: len(s) >= 1),
     "minall": ("{0}.min()", lambda t: t.min(), lambda a: a.reshape(-1)[np.argmin(a.real)], lambda s: len(s) >= 1),
     "max0": ("{0}.max(axis=0)", lambda t: t.max(axis=0), lambda a: np.take_along_axis(a, np.argmax(a.real, axis=0)[None], 0)[0], lambda s: len(s) >= 1),
+    "sumc": ("mg.sum({0}, constant=True)", lambda t: __import__("mygrad").sum(t, constant=True), lambda a: np.asarray(a.sum()), lambda s: True),
     "sum": ("{0}.sum()", lambda t: t.sum(), lambda a: a.sum(), lambda s: True),
     "sum0": (
         "{0}.sum(axis=0, keepdims=True)",
@@ -263,6 +264,11 @@ class Model:
 
     def _op1(self, out, src, oname):
         r = np.asarray(OPS1[oname][2](self.a[src]))
+        if oname == "sumc":  # constant=True: a constant result; it transmits nothing
+            if self.dtype == np.complex128:
+                r = np.asarray(r.real + 0j)
+            self._new_owner(out, r, True, ())
+            return
         self._new_owner(out, r, self.const[src], (src,))
 
     def _op2(self, out, a, b, oname):
